@@ -67,6 +67,7 @@ package transport
 //@   at `exec.CreateOperationContext(...` ghost createErr = callres1
 //@   callsite statusFor: requires arg0 == createErr
 //@   callsite statusForGraphQLResponse: requires arg0 == createErr
+//@   replay statusWithCustomPresenter.go.tmpl for statusFor
 // C09 "a request whose execution started is always answered 200, and no resolver has run for any request answered with
 // a non-2xx status": once the response handler has been invoked (resolvers run in there) no panic may leave Do -
 // Server.ServeHTTP answers an escaped panic with 422 (known finding D32: the handler's own panics, e.g. from a custom
@@ -168,6 +169,7 @@ package transport
 //@   at `exec.CreateOperationContext(...` ghost createErr = callres1
 //@   callsite statusFor: requires arg0 == createErr
 //@   callsite statusForGraphQLResponse: requires arg0 == createErr
+//@   replay statusWithCustomPresenter.go.tmpl for statusFor
 // C09 "a request whose execution started is always answered 200, and no resolver has run for any request answered with
 // a non-2xx status": once the response handler has been invoked (resolvers run in there) no panic may leave Do -
 // Server.ServeHTTP answers an escaped panic with 422 (known finding D32: the handler's own panics, e.g. from a custom
@@ -215,6 +217,7 @@ package transport
 //@   at `exec.CreateOperationContext(...` ghost createErr = callres1
 //@   callsite statusFor: requires arg0 == createErr
 //@   callsite statusForGraphQLResponse: requires arg0 == createErr
+//@   replay statusWithCustomPresenter.go.tmpl for statusFor
 // C09 "a request whose execution started is always answered 200, and no resolver has run for any request answered with
 // a non-2xx status": once the response handler has been invoked (resolvers run in there) no panic may leave Do -
 // Server.ServeHTTP answers an escaped panic with 422 (known finding D32: the handler's own panics, e.g. from a custom
@@ -257,6 +260,7 @@ package transport
 //@   at `exec.CreateOperationContext(...` ghost createErr = callres1
 //@   callsite statusFor: requires arg0 == createErr
 //@   callsite statusForGraphQLResponse: requires arg0 == createErr
+//@   replay statusWithCustomPresenter.go.tmpl for statusFor
 // C09 "a request whose execution started is always answered 200, and no resolver has run for any request answered with
 // a non-2xx status": once the response handler has been invoked (resolvers run in there) no panic may leave Do -
 // Server.ServeHTTP answers an escaped panic with 422 (known finding D32: the handler's own panics, e.g. from a custom
@@ -487,6 +491,7 @@ package transport
 // reader holds the ADDRESS of the byte-slice variable, so that variable has to be one per file part (declared inside
 // the loop over the parts) - a variable shared by the iterations would make every earlier upload read the last file
 //@   at `params.AddUpload(upload, key, path)`#1 requires declaredInEnclosingLoop(fileBytes)
+//@   replay uploadFileBytes.go.tmpl for declaredInEnclosingLoop
 // C09 "answered with the client-error status defined for the negotiated media type": the status of an operation that
 // could not be created is computed from the executor's own error list - not from what presenters or response
 // interceptors made of it (their errors need not carry the error code)
@@ -494,6 +499,7 @@ package transport
 //@   at `exec.CreateOperationContext(...` ghost createErr = callres1
 //@   callsite statusFor: requires arg0 == createErr
 //@   callsite statusForGraphQLResponse: requires arg0 == createErr
+//@   replay statusWithCustomPresenter.go.tmpl for statusFor
 // C09 "a request whose execution started is always answered 200, and no resolver has run for any request answered with
 // a non-2xx status": once the response handler has been invoked (resolvers run in there) no panic may leave Do -
 // Server.ServeHTTP answers an escaped panic with 422 (known finding D32: the handler's own panics, e.g. from a custom
@@ -569,6 +575,7 @@ package transport
 // shares and which encoding/json would merge a "headers" member of the payload into
 //@ func (*wsConnection).subscribe [C10,C03,C04,C11,C05,C07]
 //@   at! `jsonDecode(...` requires params.Headers == nil && params.Extensions == nil && params.Variables == nil
+//@   replay wsPayloadHeaders.go.tmpl for params.Headers
 //@   at! `assign params.Headers` requires rhs0 == c.headers
 //@   ghost drained = false
 //@   at `responses(ctx)` ghost drained = callres0 == nil
@@ -720,6 +727,7 @@ package transport
 //@   ghost reqctx = nil
 //@   at! `r.Context()` ghost reqctx = callres0
 //@   at `conn.init()` requires conn.ctx == reqctx
+//@   replay wsRequestContext.go.tmpl for reqctx
 //@   at! `conn.run()` requires inited
 //@   ensures calls(run) <= 1
 //@   ensures calls(run) == 1 ==> inited
@@ -879,6 +887,7 @@ package transport
 //@   nopanic
 //@   pure
 //@ func (*multipartResponseAggregator).flush [C12,C13]
+//@   replay multipartClosingBoundary.go.tmpl for old(len
 //@   requires a != nil
 //@   assumenopanic its one explicit panic is for a writer that is no http.Flusher, which MultipartMixed.Do rules out before the aggregator exists
 //@   ghost held = false
